@@ -55,6 +55,50 @@ def mentions_symbolic_input(t, limit=200000) -> bool:
     return False
 
 
+XCHECK_RATE = {'quick': 20, 'thorough': 5}
+XCHECK_TIMEOUT_MS = 10000
+
+
+def second_solver(text: str, timeout_ms: int):
+    """Decide SMT-LIB2 `text` (as printed by z3) with a solver that shares no code with the z3 5.x
+    library: cvc5 (Python API, own parser), else the z3 4.8.12 binary.  Returns (verdict, engine)."""
+    try:
+        import cvc5
+        slv = cvc5.Solver()
+        slv.setLogic('ALL')
+        slv.setOption('tlimit-per', str(timeout_ms))
+        parser = cvc5.InputParser(slv)
+        parser.setStringInput(cvc5.InputLanguage.SMT_LIB_2_6, text.replace('(check-sat)', ''), 'query')
+        sm = parser.getSymbolManager()
+        while True:
+            cmd = parser.nextCommand()
+            if cmd.isNull():
+                break
+            out = cmd.invoke(slv, sm)
+            if '(error' in out:
+                raise RuntimeError(out)
+        r = slv.checkSat()
+        return ('sat' if r.isSat() else 'unsat' if r.isUnsat() else 'unknown'), 'cvc5'
+    except Exception:     # noqa: parse error / unsupported operator: fall through to the other engine
+        pass
+    import tempfile
+    with tempfile.NamedTemporaryFile('w', suffix='.smt2', delete=False) as f:
+        f.write(text if '(check-sat)' in text else text + '\n(check-sat)\n')
+        name = f.name
+    try:
+        p = subprocess.run(['/usr/bin/z3', f'-T:{max(1, timeout_ms // 1000)}', name], capture_output=True,
+                           text=True, timeout=timeout_ms / 1000 + 10)
+        out = p.stdout
+        if '(error' in out:
+            return 'unknown', 'z3-4.8.12'
+        first = out.strip().splitlines()[0] if out.strip() else 'unknown'
+        return (first if first in ('sat', 'unsat') else 'unknown'), 'z3-4.8.12'
+    except (OSError, subprocess.TimeoutExpired):
+        return 'unknown', 'z3-4.8.12'
+    finally:
+        os.unlink(name)
+
+
 class Ob:
     """One obligation result (JSON-able)."""
 
@@ -147,6 +191,32 @@ class Collector:
                         vals[name] = int(v.getBitVectorValue(10))
         return verdict, vals, dt
 
+    def cross_check(self, oid, terms):
+        """Second opinion on an `unsat` verdict from an independent solver (cvc5 through its own parser of
+        the SMT-LIB2 text; the z3 4.8.12 binary when cvc5 cannot parse the text).  Sampled
+        deterministically: 1 obligation in XCHECK_RATE[tier] by hash of (configuration, obligation id).
+        Returns 'agree' | 'disagree' | 'unknown' | None (not sampled)."""
+        rate = XCHECK_RATE.get(os.environ.get('VERIF_TIER', 'quick'), 20)
+        if os.environ.get('VERIF_XCHECK_RATE'):
+            rate = int(os.environ['VERIF_XCHECK_RATE'])
+        if rate <= 0:
+            return None
+        h = int(hashlib.sha256(f'{self.config}|{oid}'.encode()).hexdigest()[:8], 16)
+        if h % rate:
+            return None
+        s = z3.Solver()
+        s.add(*terms)
+        text = s.to_smt2()
+        t0 = time.time()
+        verdict, engine = second_solver(text, XCHECK_TIMEOUT_MS)
+        dt = time.time() - t0
+        st = self.stats
+        st['xcheck_time_s'] = round(st.get('xcheck_time_s', 0.0) + dt, 3)
+        out = {'unsat': 'agree', 'sat': 'disagree'}.get(verdict, 'unknown')
+        st['xcheck_' + out] = st.get('xcheck_' + out, 0) + 1
+        st['xcheck_by_' + engine] = st.get('xcheck_by_' + engine, 0) + 1
+        return out
+
     def prove(self, oid, assumptions, negated_goal, witness_fn: Optional[Callable] = None,
               detail='', timeout_ms=None):
         """Discharge: assumptions /\\ negated_goal must be unsat."""
@@ -163,8 +233,19 @@ class Collector:
         w = None
         if r == 'sat' and witness_fn is not None:
             w = witness_fn(m)
+        xc = None
+        if r == 'unsat' and not by_simplifier:
+            try:
+                xc = self.cross_check(oid, terms)
+            except Exception as e:     # noqa: a broken second solver must not hide the first verdict
+                self.notes.append(f'cross-check failed for {oid}: {type(e).__name__}: {e}'[:300])
+                self.stats['xcheck_error'] = self.stats.get('xcheck_error', 0) + 1
+            if xc == 'disagree':
+                r, detail = 'unknown', 'SOLVER-DISAGREEMENT (z3: unsat, second solver: sat) ' + detail
         o = Ob(oid, self.config, r, dt, nontrivial, w, detail).d
         o['decided_by'] = 'z3.simplify (normal form)' if by_simplifier else 'solver'
+        if xc:
+            o['second_solver'] = xc
         self.obs.append(o)
         return r, m
 
@@ -321,6 +402,11 @@ def finish(pid: str, tier: str, seed: int, results: List[dict], t0: float, level
         for k in stats:
             stats[k] += r.get('stats', {}).get(k, 0)
     stats['solver_time_s'] = round(stats['solver_time_s'], 3)
+    xc = {}
+    for r in results:
+        for k, v in r.get('stats', {}).items():
+            if k.startswith('xcheck_'):
+                xc[k] = round(xc.get(k, 0) + v, 3)
 
     exit_code = EXIT_OK
     violations = 0
@@ -345,6 +431,9 @@ def finish(pid: str, tier: str, seed: int, results: List[dict], t0: float, level
         elif v == 'unknown':
             n_inc += 1
             lines.append(f'INCONCLUSIVE property={pid} {o["oid"]} @ {o["config"]} {o["detail"]}')
+            if str(o['detail']).startswith('SOLVER-DISAGREEMENT'):
+                lines.append(f'HARNESS-ERROR two solvers disagree on {o["oid"]} @ {o["config"]}')
+                exit_code = max(exit_code, EXIT_HARNESS)
     for o in sat_obs:
         n_sat += 1
         k = o.pop('_known')
@@ -440,6 +529,10 @@ def finish(pid: str, tier: str, seed: int, results: List[dict], t0: float, level
         explanation='bounded symbolic execution of the real panqec functions with z3; see DESIGN.md',
         per_config_wall_s={r['config']: round(r.get('wall', 0), 2) for r in results},
         engine_selftest=dict(SELFTEST),
+        second_solver=dict(xc, rule=f'1 solver-decided unsat obligation in {os.environ.get("VERIF_XCHECK_RATE") or XCHECK_RATE.get(tier)} (hash of '
+                           'configuration and obligation id) is re-decided from its SMT-LIB2 text by cvc5 '
+                           f'(z3 4.8.12 binary if cvc5 cannot parse it), {XCHECK_TIMEOUT_MS} ms; a `sat` answer '
+                           'is a harness error (exit 2), `unknown` is only counted'),
     )
     if extra:
         cov.update(extra)
@@ -467,4 +560,5 @@ def std_args(argv=None):
     a.seed = int(os.environ.get('VERIF_SEED', '0'))
     if a.tier not in ('quick', 'thorough'):
         a.tier = 'quick'
+    os.environ['VERIF_TIER'] = a.tier        # inherited by the worker processes (cross-check sampling rate)
     return a
